@@ -9,6 +9,7 @@ import Driver.Ops.GitSel
 import Driver.Ops.Out
 import Driver.Ops.Scale
 import Driver.Ops.Strict
+import Driver.Ops.Ts
 /-! Line-protocol driver of the model: one JSON case per input line, one JSON answer per line.
     To add an op: write `Driver/Ops/<Name>.lean`, import it here, add one line to `opTable`
     (or to `outputTable` for a new output kind of op `run`). -/
@@ -39,7 +40,9 @@ def opTable : List (String × (Json → R Json)) := [
   ("out", Ops.opOut),
   ("bufw", Ops.opBufw),
   ("fmt", Ops.opFmt),
-  ("strict", Ops.opStrict outputTable)
+  ("strict", Ops.opStrict outputTable),
+  ("ts", Ops.opTs),
+  ("tsfmt", Ops.opTsfmt)
 ]
 
 def dispatch (j : Json) : R Json := do
